@@ -792,7 +792,7 @@ def add_copy_ops(plan: dict, rng, p: float = 0.25) -> None:
         ri = _recipe_of_slot(plan["ops"], i, s)
         base = plan["recipes"][ri] if ri is not None else None
         if base is not None and base["kind"] in ("single", "multi", "figure") and rng.random() < 0.5:
-            # ... and gives the copy (sometimes the original) another page set-up before encoding it
+            # ... and gives the copy another page set-up before encoding it
             new = json_copy(base)
             pg = dict(new.get("page") or {})
             how = rng.choice(["orientation", "orientation", "margin", "size", "nrow"])
@@ -808,7 +808,8 @@ def add_copy_ops(plan: dict, rng, p: float = 0.25) -> None:
             new["page"] = pg
             new.pop("calib", None)
             plan["recipes"].append(new)
-            tgt = to if rng.random() < 0.75 else s
+            rng.random()  # (kept: one draw, so that the stream stays aligned)
+            tgt = to  # always the COPY: later generated steps of the original assume its recipe is unchanged
             extra += [{"op": "mutate", "slot": tgt, "comp": "page", "recipe": len(plan["recipes"]) - 1},
                       {"op": "encode", "slot": tgt}]
         if rng.random() < 0.7:
